@@ -10,7 +10,7 @@ import (
 
 func init() {
 	register(&Property{
-		ID: "C13",
+		ID:          "C13",
 		Explanation: "Tree well-formedness conditions decided from the source: (parent-is-directory) at every creation site of the filesystem layer (Create, Mkdir, OpenFile's create closure, Rename, SymlinkIfPossible) the header returned by inventory.Stat(filepath.Dir(name)) flows into a Typeflag/TypeDir (or IsDir) test whose failing branch returns an error, and the append is reachable only past that test; (all-ancestors) MkdirAll ranges over a separator split of its path (never filepath.SplitList, the $PATH-list splitter, which is also banned from receiving any path parameter in the module), creates every missing prefix and rejects non-directory prefixes; (live-filter) every select over the headers table in pkg/persisters carries the liveness predicate `deleted != 1`, the frozen exceptions being the upsert existence probe and the last-indexed-position query; (no-self-in-listing) every row appended to a children listing is guarded by the self-exclusion test on the queried name.",
 		NotDecided:  "The SQL depth expression, limit arithmetic, 'exactly once', symlink rows, that every listed name can be opened.",
 		Assumptions: []string{"tar.TypeDir identifies directories in index rows"},
